@@ -11,6 +11,9 @@
 #include "mfhdf.h"
 #include "h4v.h"
 #include "memio.h"
+#ifndef REOPEN
+#define REOPEN 0
+#endif
 H4V_IN_ARR(uint8_t, val, 64);
 
 typedef struct { const char *name; int32 type; int count; int size; } adef_t;
@@ -74,6 +77,17 @@ void harness(void)
         H4V_ASSERT(SDfileinfo(sd, &nds, &nfa) == SUCCEED && nfa == NA, "C10.S2.fileinfo: number of file attributes differs");
         H4V_ASSERT(SDgetinfo(sds, nm, &rk, dd, &nt, &na) == SUCCEED && na == NA, "C10.S2.getinfo: number of dataset attributes differs");
         { int32 sz, dnt, dna; H4V_ASSERT(SDdiminfo(dim, nm, &sz, &dnt, &dna) == SUCCEED && dna == NA && sz == 3, "C10.S2.diminfo: number of dimension attributes differs"); }
+#if REOPEN /* everything survives SDend + SDstart (read mode) */
+        H4V_ASSERT(SDendaccess(sds) == SUCCEED && SDend(sd) == SUCCEED, "C10.S2.end");
+        sd = SDstart("t.hdf", DFACC_READ);
+        H4V_ASSERT(sd != FAIL, "C10.S2.restart");
+        sds = SDselect(sd, SDnametoindex(sd, "v"));
+        H4V_ASSERT(sds != FAIL, "C10.S2.reselect");
+        dim = SDgetdimid(sds, 1);
+        H4V_ASSERT(dim != FAIL, "C10.S2.regetdimid");
+        ids[0] = sd; ids[1] = sds; ids[2] = dim;
+        for (o = 0; o < 3; o++) check_obj(ids[o], o, 0);
+#endif
     }
 #else
     {
